@@ -22,6 +22,26 @@
 
 namespace bloch::runtime {
 
+#ifdef BLOCH_VERIF
+    // Verification hooks (guarded): injected random draws and a record of every draw taken.
+    // When the queue is exhausted the simulator's own generator is used.  The queue can be
+    // preloaded from the file named by BLOCH_VERIF_DRAWS (one number per line) and the record
+    // is appended to the file named by BLOCH_VERIF_DRAWLOG.
+    struct VerifDraws {
+        struct Rec {
+            char op;  // 'm' measure, 'r' reset
+            int qubit;
+            double r;
+            int outcome;
+        };
+        static std::vector<double>& queue();
+        static size_t& pos();
+        static std::vector<Rec>& record();
+        static double next(double fallback);
+        static void note(char op, int qubit, double r, int outcome);
+    };
+#endif
+
     // An ideal statevector simulator with a QASM log.
     // TODO: performance optimisation post 1.0.0
     class QasmSimulator {
@@ -40,6 +60,13 @@ namespace bloch::runtime {
         int measure(int q);
         std::string getQasm() const;
         size_t stateSize() const { return m_state.size(); }
+#ifdef BLOCH_VERIF
+        // Verification hooks (guarded): read-only view of the simulated state.
+        const std::vector<std::complex<double>>& verifState() const { return m_state; }
+        const std::vector<bool>& verifMeasured() const { return m_measured; }
+        int verifQubits() const { return m_qubits; }
+        const std::vector<std::string>& verifOps() const { return m_ops; }
+#endif
 
        private:
         int m_qubits = 0;
